@@ -47,17 +47,18 @@ NonZeroOnly(s, i) == IF i > Len(s) THEN <<>> ELSE (IF s[i] # 0 THEN <<s[i]>> ELS
 Rest(s, i) == SubSeq(s, i, Len(s))
 
 (* verdict of a decryption call against the definition's verdict def = [ok, m].                       *)
-(* strict = TRUE: a refusal must not have written into the output buffer.                             *)
+(* A refusal may have left at most `wr` in the output area: 0 = untouched, 1 = zero bytes only (cleared), *)
+(* 2 = anything.                                                                                        *)
 (* need = an output capacity with which a valid ciphertext must be decrypted; with less (but room for the  *)
 (* plaintext) the call may decline.                                                                     *)
-DecVerdictN(e, def, strict, need) ==
+DecVerdictN(e, def, wr, need) ==
     /\ e.crash = 0 /\ e.over = 0
     /\ IF def.ok /\ Len(def.m) <= e.cap
        THEN IF Succ(e) THEN e.olen = Len(def.m) /\ e.out = def.m
             ELSE Refused(e) /\ e.cap < need
-       ELSE Refused(e) /\ (strict => e.touched = 0)
+       ELSE Refused(e) /\ e.touched <= wr
     /\ (e.honest = 1 => def.ok /\ def.m = e.m0)
-DecVerdict(e, def, strict) == DecVerdictN(e, def, strict, Len(def.m))
+DecVerdict(e, def, wr) == DecVerdictN(e, def, wr, Len(def.m))
 
 (* ====================================================================== RSA *)
 HLen == 32
@@ -145,7 +146,7 @@ RsaDecDef(e) ==
     IF Len(e.c) # k THEN Bad                        \* length check
     ELSE IF ~BLt(c, N) THEN Bad                     \* ciphertext representative out of range
     ELSE RsaDecOf(e, c)
-RsaDecOk(e) == e.mdl = HLen /\ RsaKeyOk(e) /\ DecVerdict(e, RsaDecDef(e), TRUE)
+RsaDecOk(e) == e.mdl = HLen /\ RsaKeyOk(e) /\ DecVerdict(e, RsaDecDef(e), 0)
 
 RsaEncOk(e) ==
     LET N == RsaN(e)  k == RsaK(e)  c == BFromBE(e.out) IN
@@ -199,8 +200,8 @@ RabinDecDef(e) ==
 RabinDecOk(e) ==
     LET S == RabinDecDef(e) IN
     /\ RabinKeyOk(e)
-    /\ IF S = {} THEN DecVerdict(e, Bad, TRUE)
-       ELSE \E d \in S : DecVerdict(e, d, TRUE)
+    /\ IF S = {} THEN DecVerdict(e, Bad, 1)          \* the refusing path clears the buffer
+       ELSE \E d \in S : DecVerdict(e, d, 1)
 RabinEncOk(e) ==
     LET N == BnVal(e.N)  k == BLenBytes(N)  c == BFromBE(e.out) IN
     /\ RabinKeyOk(e) /\ e.over = 0 /\ e.crash = 0
@@ -402,7 +403,7 @@ EciesDecDef(e) ==
 EciesDecOk(e) ==
     LET D == EciesDecDef(e) IN
     /\ e.mdl = 32 /\ e.ksz \in {16, 24, 32} /\ CurveOk(e) /\ NonNeg(e.d)
-    /\ DecVerdictN(e, D.r, D.cls # "auth", Len(e.c) - e.mdl)       \* the library asks for room for the whole ciphertext
+    /\ DecVerdictN(e, D.r, IF D.cls = "auth" THEN 2 ELSE 0, Len(e.c) - e.mdl)       \* the library asks for room for the whole ciphertext
     /\ (D.cls = "auth" /\ D.r.ok /\ Len(D.r.m) > e.cap => e.touched = 0)
 
 (* ======================================================== Shamir, Beaver triples *)
@@ -491,14 +492,14 @@ CoreKnownKey(e) ==
             LET N == RsaN(e)  k == RsaK(e)  c == BFromBE(e.c) IN
             \* a ciphertext representative c >= n is reduced instead of refused (RFC 8017 5.1.2 / 7.1.2 step 2)
             IF /\ RsaKeyOk(e) /\ Len(e.c) = k /\ ~BLt(c, N) /\ e.honest = 0
-               /\ DecVerdict(e, RsaDecOf(e, BMod(c, N)), TRUE) /\ Succ(e)
+               /\ DecVerdict(e, RsaDecOf(e, BMod(c, N)), 0) /\ Succ(e)
             THEN "C06-rsa-ciphertext-not-below-modulus"
             \* PKCS#1 v1.5: a padding string shorter than 8 bytes is accepted (RFC 8017 7.2.2 step 3)
             ELSE IF /\ e.pad = "pkcs1" /\ RsaKeyOk(e) /\ Len(e.c) = k /\ BLt(c, N) /\ e.honest = 0 /\ Succ(e)
                     /\ LET EM == BToBE(BModExp(c, BnVal(e.D), N), k)
                            j == FirstZero(EM, 3)
                        IN  /\ EM[1] = 0 /\ EM[2] = 2 /\ j # 0 /\ j - 3 < 8 /\ j < k
-                           /\ DecVerdict(e, Ok(Rest(EM, j + 1)), TRUE)
+                           /\ DecVerdict(e, Ok(Rest(EM, j + 1)), 0)
             THEN "C06-rsa-pkcs1-short-padding-accepted"
             ELSE ""
       [] e.op = "rabin_dec" ->
@@ -508,7 +509,7 @@ CoreKnownKey(e) ==
             THEN "C06-rabin-zero-ciphertext-hangs"
             \* the length of the ciphertext is not compared with the length of the modulus
             ELSE IF /\ RabinKeyOk(e) /\ Len(e.c) # k /\ BLt(c, N) /\ e.honest = 0 /\ Succ(e)
-                    /\ \E d \in RabinValidSet(e, c) : DecVerdict(e, d, TRUE)
+                    /\ \E d \in RabinValidSet(e, c) : DecVerdict(e, d, 1)
             THEN "C06-rabin-ciphertext-length-not-checked"
             ELSE ""
       [] e.op = "ghpe" ->
